@@ -297,17 +297,28 @@ def soxrOutput (fuel : Nat) (o : Obj) (outNull : Bool) (len0 : Nat) : M (Obj × 
 /-- decoding of `ilen0` in `soxr_process`: `if ((ptrdiff_t)ilen0 < 0) flush_requested = true, ilen0 = ~ilen0`. -/
 def decodeIlen (x : BitVec 64) : Bool × BitVec 64 := if x.msb then (true, ~~~x) else (false, x)
 
-/-- `soxr_process(p, in, ilen0, &idone, out, olen, &odone)`, `p` not NULL, interleaved: `(object, idone, odone)`. -/
-def soxrProcess (fuel : Nat) (o : Obj) (inNull : Bool) (ilen0 : BitVec 64) (outNull : Bool) (olen : Nat) :
-    M (Obj × Nat × Nat) :=
-  let dec : Bool × BitVec 64 := if inNull then (true, 0#64) else decodeIlen ilen0
-  let ilen := if inNull then 0 else iForO olen o.ioRatio dec.2.toNat
-  let o1 : Obj := { o with flushing := o.flushing || (ilen = dec.2.toNat && dec.1) }
+/-- the body of `soxr_process` once `ilen` and the flushing flag are settled. -/
+def processCore (fuel : Nat) (o1 : Obj) (inNull outNull : Bool) (ilen olen : Nat) : M (Obj × Nat × Nat) :=
   if outNull && inNull then M.pure (o1, ilen, 0)
   else
     M.bind (if ilen != 0 then soxrInput o1 inNull ilen else M.pure (o1, 0)) fun oi =>
     M.bind (soxrOutput fuel oi.1 outNull olen) fun oo =>
     M.pure (oo.1, oi.2, oo.2)
+
+/-- `ilen` of `soxr_process`. -/
+def ilenOf (o : Obj) (inNull : Bool) (ilen0 : BitVec 64) (olen : Nat) : Nat :=
+  if inNull then 0 else iForO olen o.ioRatio (decodeIlen ilen0).2.toNat
+
+/-- `p->flushing |= ilen == ilen0 && flush_requested`. -/
+def flushAfter (o : Obj) (inNull : Bool) (ilen0 : BitVec 64) (olen : Nat) : Bool :=
+  o.flushing || (if inNull then true
+    else (decide (ilenOf o inNull ilen0 olen = (decodeIlen ilen0).2.toNat) && (decodeIlen ilen0).1))
+
+/-- `soxr_process(p, in, ilen0, &idone, out, olen, &odone)`, `p` not NULL, interleaved: `(object, idone, odone)`.
+    (`in == NULL`: `flush_requested = true, ilen = ilen0 = 0`.) -/
+def soxrProcess (fuel : Nat) (o : Obj) (inNull : Bool) (ilen0 : BitVec 64) (outNull : Bool) (olen : Nat) :
+    M (Obj × Nat × Nat) :=
+  processCore fuel { o with flushing := flushAfter o inNull ilen0 olen } inNull outNull (ilenOf o inNull ilen0 olen) olen
 
 /-- `soxr_clear(p)`, `p` not NULL: `(object, returned error)`. -/
 def soxrClear (o : Obj) : M (Obj × Option Err) :=
